@@ -79,6 +79,20 @@ var PassThrough = []Kind{NoOp, NackGenerator, NackResponder, ReportReceiver, Rep
 var All = []Kind{NoOp, NackGenerator, NackResponder, ReportReceiver, ReportSender, TWCCSender, TWCCHeaderExt,
 	RFC8888, RTPFB, Stats, DumpSender, DumpReceiver, IntervalPLI, FlexFEC, CCNoOpPacer, CCLeakyBucket, Pacing, JitterBuffer}
 
+// loopRecorder is a minimal user-supplied stats.Recorder whose Start blocks until Stop.
+type loopRecorder struct {
+	stop chan struct{}
+	once sync.Once
+}
+
+func (l *loopRecorder) QueueIncomingRTP(time.Time, []byte, interceptor.Attributes)              {}
+func (l *loopRecorder) QueueIncomingRTCP(time.Time, []byte, interceptor.Attributes)             {}
+func (l *loopRecorder) QueueOutgoingRTP(time.Time, *rtp.Header, []byte, interceptor.Attributes) {}
+func (l *loopRecorder) QueueOutgoingRTCP(time.Time, []rtcp.Packet, interceptor.Attributes)      {}
+func (l *loopRecorder) GetStats() stats.Stats                                                   { return stats.Stats{} }
+func (l *loopRecorder) Stop()                                                                   { l.once.Do(func() { close(l.stop) }) }
+func (l *loopRecorder) Start()                                                                  { <-l.stop }
+
 // Quiet is a logger factory that discards everything.
 func Quiet() logging.LoggerFactory {
 	f := logging.NewDefaultLoggerFactory()
@@ -159,11 +173,12 @@ type Built struct {
 	RTCPSink    *Sink
 
 	// option values a monitor may want
-	NackSize     uint16
-	FECMedia     uint32
-	FECRepair    uint32
-	BinaryDump   bool
-	PacingRate   int
+	NackSize       uint16
+	FECMedia       uint32
+	FECRepair      uint32
+	BinaryDump     bool
+	CustomRecorder bool // Stats built with a user recorder: the getter's figures are not the library's
+	PacingRate     int
 }
 
 // Opts constrains Build.
@@ -172,6 +187,7 @@ type Opts struct {
 	FastTickers  bool // draw short intervals (1..20 ms) instead of protocol defaults
 	Interval     time.Duration
 	CaptureDumps bool
+	LoopRecorder bool // Stats: a user recorder whose Start blocks until Stop
 	SmallWindows bool // tiny NACK/rtx windows so goroutines collide / eviction happens
 	HighRates    bool // pacers / estimators start far above what the workloads send
 	PacingRate   int  // when non-zero and !HighRates: exact rate (bit/s) of the pacing interceptor, interval 5 ms
@@ -275,7 +291,17 @@ func Build(r *vf.Rand, k Kind, o Opts) (*Built, error) {
 		f, err = rtpfb.NewInterceptor(rtpfb.WithLoggerFactory(lf))
 	case Stats:
 		b.Desc = "stats"
-		sf, e := stats.NewInterceptor(stats.WithLoggerFactory(lf))
+		sopts := []stats.Option{stats.WithLoggerFactory(lf)}
+		if o.LoopRecorder {
+			// a user recorder (stats.SetRecorderFactory) whose Start runs until Stop, the way a
+			// recorder with a processing loop of its own does
+			b.Desc = "stats(loop-recorder)"
+			b.CustomRecorder = true
+			sopts = append(sopts, stats.SetRecorderFactory(func(uint32, float64) stats.Recorder {
+				return &loopRecorder{stop: make(chan struct{})}
+			}))
+		}
+		sf, e := stats.NewInterceptor(sopts...)
 		if e == nil {
 			sf.OnNewPeerConnection(func(_ string, g stats.Getter) { b.StatsGetter = g })
 		}
